@@ -8,7 +8,7 @@ W=/tmp/verif-work/dettest-$$; "$V/tools/build.sh" "$W" || exit 2
 cd "$W"
 for p in ${VERIF_DET_PROPS:-C03 C06 C07 C08 C12 C13 C14 C15 C16 C17 C18 C19}; do
   for i in $(seq 1 $N); do
-    ( VERIF_DET_DIGEST=1 GODEBUG=randautoseed=0 ./sim.test -test.run TestProp -test.cpu 1 -test.timeout 0 -verif.prop=$p -verif.budget=600s -verif.maxruns=$K -verif.det=$K -verif.worker=0 -verif.seed=${VERIF_SEED:-1} -verif.out=det-$p-$i.json >/dev/null 2>&1 ) &
+    ( VERIF_DET_DIGEST=1 GODEBUG=randautoseed=0,asyncpreemptoff=1 ./sim.test -test.run TestProp -test.cpu 1 -test.timeout 0 -verif.prop=$p -verif.budget=600s -verif.maxruns=$K -verif.det=$K -verif.worker=0 -verif.seed=${VERIF_SEED:-1} -verif.out=det-$p-$i.json >/dev/null 2>&1 ) &
     if (( i % 16 == 0 )); then wait; fi
   done; wait
   python3 - "$p" "$N" <<'PY'
